@@ -238,6 +238,10 @@ def verify_unit(repo, reg, qualname, timeout_ms=10000, instance=None):
                     obl.append(Obligation(qualname, cid, list(q.pc), z3.Not(cond), "raises-complete", is_prop(cid) or True,
                                           dict(path=k, cut=str(o.value),
                                                text="reaching the unmodelled part (%s) implies not (%s)" % (o.value, c.raises[ecls][0]))))
+                cutenv = SpecEnv(ex, q, dict(pre.env), old=p0, contract=c)
+                for cid, ctxt in c.at_cut:
+                    obl.append(Obligation(qualname, cid, list(q.pc), cutenv.bool(ctxt, proving=True), "at-cut", True,
+                                          dict(path=k, cut=str(o.value), text=ctxt)))
                 normal_reached = True
             else:
                 raise Unsupported("outcome %s escaped function" % o.kind)
